@@ -618,7 +618,7 @@ func c16Units(tier string) []*Unit {
 		}
 		return docs
 	}, nil))
-	us = append(us, c16IncludeUnit(tier), c16CommandTextUnit())
+	us = append(us, c16IncludeUnit(tier), c16CommandTextUnit(), c16LateFailingVariableUnit())
 	// include locations
 	for _, remote := range []string{"0", "1"} {
 		remote := remote
@@ -681,6 +681,52 @@ func c16CommandTextUnit() *Unit {
 					if res.SigCounts[v.Sig] == 1 {
 						res.Violations = append(res.Violations, v)
 					}
+				}
+			}
+		}
+		res.Extra["samples"] = samples
+		res.Stats = vlab.Stats{Scenario: name, Execs: n, States: n, Transitions: n, Outcomes: 2, Exhaustive: true}
+		return res
+	}}
+}
+
+// Variables that are evaluated again later in a run (for deferred commands, for the summary, for
+// the fingerprint variables) and fail only then: a dynamic variable whose command text differs on
+// every evaluation (so it is never served from the cache) and whose command starts failing once
+// the task's own command has run.
+func c16LateFailingVariableUnit() *Unit {
+	name := "variables/dynamic-variable-failing-on-re-evaluation"
+	return &Unit{Name: name, Weight: 1, Custom: func(u *Unit, dir string, deadline time.Time) *vlab.UnitResult {
+		res := &vlab.UnitResult{SigCounts: map[string]int{}, Extra: map[string]any{}}
+		n := 0
+		var samples []any
+		dyn := "{sh: 'test ! -e done.flag # {{randInt 0 2000000000}}'}"
+		for _, c := range []struct{ label, task string }{
+			{"deferred-command", "    vars:\n      X: " + dyn + "\n    cmds:\n      - defer: echo bye {{.X}}\n      - touch done.flag\n"},
+			{"deferred-task-call", "    vars:\n      X: " + dyn + "\n    cmds:\n      - defer: {task: other, vars: {Y: '{{.X}}'}}\n      - touch done.flag\n"},
+			{"global-variable-deferred-command", "    cmds:\n      - defer: echo bye {{.G}}\n      - touch done.flag\n"},
+			{"later-command-calls-task", "    vars:\n      X: " + dyn + "\n    cmds:\n      - touch done.flag\n      - task: other\n        vars: {Y: '{{.X}}'}\n"},
+		} {
+			tf := "version: '3'\n"
+			if strings.HasPrefix(c.label, "global") {
+				tf += "vars:\n  G: " + dyn + "\n"
+			}
+			tf += "tasks:\n  t:\n" + c.task + "  other:\n    cmds:\n      - echo other {{.Y}}\n"
+			os.RemoveAll(dir)
+			os.MkdirAll(dir, 0o755)
+			os.WriteFile(filepath.Join(dir, "Taskfile.yml"), []byte(tf), 0o644)
+			_, se, rc := RunCLI(dir, nil, "", "t")
+			n++
+			if len(samples) < 2 {
+				samples = append(samples, map[string]any{"case": c.label, "status": rc, "stderr": firstN(se, 100)})
+			}
+			if cr := c16Crash(se, rc); cr != "" {
+				v := vlab.V("C16", cr, "late_failing_variable:"+panicSite(se), fmt.Sprintf("%s: %s", c.label, firstN(se, 400)))
+				v.Scenario = name
+				v.Input = map[string]any{"taskfile": tf, "request": "t"}
+				res.SigCounts[v.Sig]++
+				if res.SigCounts[v.Sig] == 1 {
+					res.Violations = append(res.Violations, v)
 				}
 			}
 		}
